@@ -25,6 +25,26 @@ func (c *Ctx) lexerExploration() {
 		})
 	}
 	c.lexSweep(blocks, "block6")
+	// escape sequences: every \uXXXX over an alphabet of hex digits of both cases, near-hex letters,
+	// control bytes that differ from digits in one bit, a quote, a blank and a non-ASCII byte pair
+	var escs [][]byte
+	hexish := [][]byte{{'0'}, {'1'}, {'9'}, {'a'}, {'F'}, {'g'}, {'D'}, {'8'}, {0x10}, {0x19}, {0x1f}, {' '}, {'"'}, {0xc3, 0xa9}}
+	EnumUpTo(hexish, 4, func(s []byte) {
+		if len(s) >= 3 {
+			escs = append(escs, append(append([]byte("\"\\u"), s...), '"'), append(append([]byte("\"a\\u"), s...), []byte("z\" b")...))
+		}
+	})
+	c.lexSweep(escs, "unicode-escapes")
+	// truncations: every prefix of literals whose scanners look ahead (escapes, surrogate pairs written
+	// as two escapes, block-string escapes, numbers with exponents, spreads), bare and inside a document
+	var trunc [][]byte
+	for _, lit := range []string{`"\uD83D\uDE00"`, `"\uD83D\u0041"`, `"\uDE00\uD83D"`, `"\u00e9\u2028\uFFFF"`, `"a\\\"b\n\t\/"`, `"""a\"""b"""`, `""""""`, `"""\n  x\r\n"""`,
+		`-12.5e+10`, `0.0E-0`, `...`, `$v:[Int!]!=[1]`, `@d(a:{b:[$c]})`, "\ufeff#c\r\n{a}", `"\u{1F600}"`, `"\ud83d\ude00\ud83d"`} {
+		for i := 0; i <= len(lit); i++ {
+			trunc = append(trunc, []byte(lit[:i]), []byte("{ f(a: "+lit[:i]), []byte(lit[:i]+`"`), []byte("type T { f(a: String = "+lit[:i]))
+		}
+	}
+	c.lexSweep(trunc, "truncations")
 	// repository corpus and random long inputs
 	qs, ss := RepoGraphQLInputs()
 	var corpus [][]byte
@@ -47,7 +67,7 @@ func (c *Ctx) lexerExploration() {
 	}
 	c.lexSweep(rnd, "random")
 	c.Ev.Exhaustive = true
-	c.Ev.Rule = "exhaustive: every string of ≤N symbols over lex19 (19 lexically significant symbols) and lexraw16 (raw bytes), every block-string body of ≤M symbols over 6 symbols (two variants); plus the repository's own test inputs, their random mutations and random byte strings. Non-trivial: ≥2 tokens, or a lexical error after ≥1 token; distinct by observation."
+	c.Ev.Rule = "exhaustive: every string of ≤N symbols over lex19 (19 lexically significant symbols) and lexraw16 (raw bytes), every block-string body of ≤M symbols over 6 symbols (two variants), every \\uXXXX escape over a 14-symbol alphabet of hex and near-hex bytes, every prefix of 16 look-ahead-heavy literals; plus the repository's own test inputs, their random mutations and random byte strings. Non-trivial: ≥2 tokens, or a lexical error after ≥1 token; distinct by observation."
 }
 
 func init() {
